@@ -355,6 +355,7 @@ func (c *clipperBase) fixSelfIntersects(outrec *OutRec) {
 			if segsIntersect(op2.prev.pt, op2.pt, op2.next.next.pt, op2.next.next.next.pt, false) {
 				op2 = duplicateOp(op2, false)
 				op2.pt = op2.next.next.next.pt
+				verifMicroSplice(op2.prev.pt, op2.pt, op2.next.pt)
 				op2 = op2.next
 			} else {
 				if op2 == outrec.pts || op2.next == outrec.pts {
